@@ -194,4 +194,41 @@ def c14Holds (src ds de : List Char) (cfg : Cfg) (out : List Char) : Bool :=
   let parts := parseSource src ds de
   occurInOrder (stretches b (readyExtents cfg b parts) (unwrappedBodies cfg b parts)) (bytesOf out)
 
+/-! ### C15 / C17: the listed regions, item by item -/
+
+-- decidable form of "no tag stands on a wrapper line of an unwrappable unwrap-block" (the C15 space)
+mutual
+def wrapFreeB (b : Bytes) : List Part → Bool
+  | [] => true
+  | p :: ps => wrapFreePartB b p && wrapFreeB b ps
+def wrapFreePartB (b : Bytes) : Part → Bool
+  | .text _ => true
+  | .element el st en ch =>
+    (match extentOf b el st en with
+     | [h, t] => (elementsOf ch).all fun e => decide (h.2 ≤ e.2.1.bstart) && decide (e.2.2.bstop < t.1)
+     | _ => true) && wrapFreeB b ch
+end
+
+
+def swallowedBy (rs : List Rng) (p : Rng) : Bool :=
+  rs.any fun r => decide (r.1 ≤ p.1) && decide (p.1 < r.2) && (decide (r.1 ≤ p.2) && decide (p.2 < r.2))
+
+def startsSortedB : List (Nat × Nat × Bool) → Nat → Bool
+  | [], _ => true
+  | x :: xs, lo => decide (lo ≤ x.1) && startsSortedB xs x.1
+
+/-- C15 on an observed list: the regions are the reference regions of the ready elements -/
+def c15Holds (src ds de : List Char) (cfg : Cfg) (items : List Rng) : Bool :=
+  items == refRegions (conditionHolds cfg) (bytesOf src) (parseSource src ds de)
+
+/-- C17 on an observed full list `(start, stop, isReady)` -/
+def c17Holds (src ds de : List Char) (cfg : Cfg) (items : List (Nat × Nat × Bool)) : Bool :=
+  let b := bytesOf src
+  let parts := parseSource src ds de
+  let R := refRegions (conditionHolds cfg) b parts
+  let P := refRegions (conditionPending cfg) b parts
+  ((items.filter (·.2.2)).map (fun x => (x.1, x.2.1)) == R) &&
+  ((items.filter (fun x => !x.2.2)).map (fun x => (x.1, x.2.1)) == P.filter (fun p => !swallowedBy R p)) &&
+  startsSortedB items 0
+
 end Chiritori.Spec
